@@ -47,7 +47,8 @@ def setup_paths():
 class R:
     """Per-shard result collector (picklable via .export())."""
     MAX_SAMPLES = 3
-    MAX_VIOLATIONS = 40
+    MAX_VIOLATIONS = 200
+    MAX_PER_KEY = 3
 
     def __init__(self, label=''):
         self.label = label
@@ -58,6 +59,7 @@ class R:
         self.nviol = 0
         self.stats = Counter()
         self.outcomes = Counter()
+        self._perkey = {}
 
     def case(self, sample=None, nontrivial=True, n=1):
         """Count one explored case (distinct by construction of the
@@ -69,7 +71,14 @@ class R:
             self.samples.append(sample)
 
     def bad(self, key, what, case):
+        """At most MAX_PER_KEY violations per key and shard are kept, so a
+        loud (possibly known) finding cannot crowd out a different one."""
         self.nviol += 1
+        k = self._perkey.get(key, 0)
+        self._perkey[key] = k + 1
+        if k >= self.MAX_PER_KEY:
+            self.stats['further_violations_under_reported_keys'] += 1
+            return
         if len(self.violations) < self.MAX_VIOLATIONS:
             self.violations.append({'key': key, 'what': str(what)[:600],
                                     'case': case})
